@@ -108,6 +108,13 @@ def gen_case(rnd, i):
             "seeds": [rnd.getrandbits(30) + 1 for _ in range(2)]}
 
 
+SANITIZE_TIERS = ("thorough",)
+
+
+def sanitize_subset(cases):
+    return cases[:80]
+
+
 def generate(tier, seed):
     rnd = util.rng(PROPERTY, tier, seed, "cases")
     n = 60 if tier == "quick" else 1500
